@@ -131,6 +131,7 @@ private:
     template <typename... Args>
     void offer_work_impl(execution_data& ed, Args&&... constructor_args) {
         // New right child
+        __TBB_VERIF_POINT(vp_part_offer_work, this, 0);
         small_object_allocator alloc{};
         start_for& right_child = *alloc.new_object<start_for>(ed, std::forward<Args>(constructor_args)..., alloc);
 
